@@ -1054,18 +1054,43 @@ def tx_to_generate(repo):
             f"  let hash_formats_to_generate := @nil fmt in\n  {body}.\n")
 
 
+def tx_latest_number(fn, item):
+    """latest_number = 0; for hash_list in self.hash_lists: if hash_list.generation_number: latest_number = hash_list.generation_number;
+       return latest_number   (truthiness of a number: it is not zero)"""
+    body = stmts_of(fn)
+    expect = ["latest_number = 0",
+              "for hash_list in self.hash_lists:\n    if hash_list.generation_number:\n        latest_number = hash_list.generation_number",
+              "return latest_number"]
+    if body != expect or [a.arg for a in fn.args.args] != ["self"]:
+        fail(item, f"body outside the translated fragment: {body}")
+    return ("(* history.py:latest_generation_number *)\n"
+            "Definition src_latest_generation_number (hash_lists : list gen) : N :=\n"
+            "  fold_left (fun latest_number hash_list =>\n"
+            "    if negb (N.eqb (g_no hash_list) 0) then g_no hash_list else latest_number) hash_lists 0%N.\n")
+
+
 def generate_fns(repo):
-    mod = parse(repo, "ascmhl/history.py")
-    cls = find_class(mod, "MHLHistory", "MHLHistory")
-    parts = [FNS_HEADER]
-    parts.append(tx_lookup(find_func(cls.body, "find_original_hash_entry_for_path", "find_original_hash_entry_for_path"),
-                           "src_find_original", "find_original_hash_entry_for_path", []))
-    parts.append(tx_lookup(find_func(cls.body, "find_first_hash_entry_for_path", "find_first_hash_entry_for_path"),
-                           "src_find_first", "find_first_hash_entry_for_path", ["hash_format"]))
-    parts.append(tx_collect(find_func(cls.body, "find_existing_hash_formats_for_path", "find_existing_hash_formats_for_path"),
-                            "src_existing_formats", "find_existing_hash_formats_for_path"))
-    parts.append(tx_to_generate(repo))
-    return "\n".join(parts)
+    """-> (text of GeneratedFns.v, [error strings]); a function whose source is outside the translated fragment is left out
+    (its obligations then do not build -- only the property file that names it is affected), the others are still emitted"""
+    parts, errors = [FNS_HEADER], []
+
+    def add(make):
+        try:
+            parts.append(make())
+        except TranslateError as e:
+            errors.append(str(e))
+            parts.append(comment("TRANSLATION FAILED: " + str(e)) + "\n")
+
+    def hist_fn(name):
+        mod = parse(repo, "ascmhl/history.py")
+        return find_func(find_class(mod, "MHLHistory", "MHLHistory").body, name, name)
+
+    add(lambda: tx_lookup(hist_fn("find_original_hash_entry_for_path"), "src_find_original", "find_original_hash_entry_for_path", []))
+    add(lambda: tx_lookup(hist_fn("find_first_hash_entry_for_path"), "src_find_first", "find_first_hash_entry_for_path", ["hash_format"]))
+    add(lambda: tx_collect(hist_fn("find_existing_hash_formats_for_path"), "src_existing_formats", "find_existing_hash_formats_for_path"))
+    add(lambda: tx_to_generate(repo))
+    add(lambda: tx_latest_number(hist_fn("latest_generation_number"), "latest_generation_number"))
+    return "\n".join(parts), errors
 
 
 # --------------------------------------------------------------------------------------------------- main
@@ -1106,14 +1131,7 @@ def main(argv):
     except TranslateError as e:
         print(json.dumps({"ok": False, "error": str(e)}))
         return 1
-    fn_error = None
-    try:
-        fns = generate_fns(repo)
-    except TranslateError as e:
-        # only Props/C04.v (through Proofs/SourceLookupFacts.v) names the translated functions: without them its obligations
-        # do not build, and the failure stays with the property whose statements are made with these lookups
-        fn_error = str(e)
-        fns = FNS_HEADER + comment("TRANSLATION FAILED: " + fn_error) + "\n"
+    fns, fn_errors = generate_fns(repo)
     changed = False
     # the translated functions go to GeneratedFns.v beside the constants (they import the model, the constants are imported by it)
     for path, content in ((dst, text), (os.path.join(os.path.dirname(dst), "GeneratedFns.v"), fns)):
@@ -1127,8 +1145,8 @@ def main(argv):
             with open(path + ".tmp", "w", encoding="utf-8") as fh:
                 fh.write(content)
             os.replace(path + ".tmp", path)
-    print(json.dumps({"ok": True, "changed": changed, "items": len(summary) + (0 if fn_error else 4), "shape_warnings": WARNINGS,
-                      **({"function_translation_failed": fn_error} if fn_error else {})}))
+    print(json.dumps({"ok": True, "changed": changed, "items": len(summary) + 5 - len(fn_errors), "shape_warnings": WARNINGS,
+                      **({"function_translation_failed": fn_errors} if fn_errors else {})}))
     return 0
 
 
